@@ -24,11 +24,13 @@ import (
 // Bounds are the per-tier size limits.
 type Bounds struct {
 	MaxC, MaxK, MaxOps, MaxOut, MaxG, MaxM, MaxSteps int
+	HugeOneIn                                        int // one run in so many uses a huge shape (64 Ki .. 1 Mi samples)
+	MarathonOneIn                                    int // one C10 run in so many is a marathon (about 1e5 operations on a tiny shape)
 }
 
 var tiers = map[string]Bounds{
-	"quick":    {MaxC: 16, MaxK: 64, MaxOps: 300, MaxOut: 6, MaxG: 8, MaxM: 6, MaxSteps: 6000},
-	"thorough": {MaxC: 64, MaxK: 4096, MaxOps: 400, MaxOut: 16, MaxG: 64, MaxM: 10, MaxSteps: 50000},
+	"quick":    {MaxC: 16, MaxK: 64, MaxOps: 300, MaxOut: 6, MaxG: 8, MaxM: 6, MaxSteps: 6000, HugeOneIn: 2500, MarathonOneIn: 12000},
+	"thorough": {MaxC: 64, MaxK: 4096, MaxOps: 400, MaxOut: 16, MaxG: 64, MaxM: 10, MaxSteps: 50000, HugeOneIn: 400, MarathonOneIn: 1500},
 }
 
 // runCtx is everything one run needs.
@@ -96,6 +98,7 @@ func main() {
 	replay := flag.String("replay", "", "replay file (JSON with a tape); executes exactly that run")
 	trace := flag.Bool("trace", false, "record and print a human-readable trace")
 	sample := flag.Int("sample", 0, "emit the trace of the first N runs")
+	traceRun := flag.Int64("tracerun", -1, "record the trace of this run index")
 	child := flag.Bool("child", false, "internal: one isolated run on behalf of a parent worker")
 	isolateAll := flag.Bool("isolate", false, "run every run in a process of its own (at most 64 runs of the range): used when goroutines or state the library keeps at package level make runs in one process depend on each other")
 	flag.Parse()
@@ -186,11 +189,6 @@ func main() {
 		}
 		simrt.End()
 		viol.render()
-		if sim.Deadlocked != "" && viol == nil {
-			out.Flush()
-			fmt.Fprintln(os.Stderr, sim.Deadlocked)
-			os.Exit(2)
-		}
 		orphans = sim.Orphans()
 		if n := simrt.RaceErrors() - racesBefore; n > 0 {
 			// The report text is on stderr; the driver attaches it.
@@ -199,6 +197,11 @@ func main() {
 				rv.Detail += "; additionally [" + viol.Class + "] " + viol.Detail
 			}
 			viol = rv
+		}
+		if sim.Deadlocked != "" && viol == nil {
+			out.Flush()
+			fmt.Fprintln(os.Stderr, sim.Deadlocked)
+			os.Exit(2)
 		}
 		for i := range counters {
 			counters[i] += sim.Counters[i]
@@ -243,7 +246,7 @@ func main() {
 			if isolate && nruns >= 64 {
 				break
 			}
-			tracing := *trace || int(run-*from) < *sample
+			tracing := *trace || int(run-*from) < *sample || int64(run) == *traceRun
 			if isolate {
 				// The library keeps goroutines alive across runs (package-level
 				// state): every further run gets a process of its own, so that
